@@ -803,15 +803,21 @@ func verifJReadView(st *NomsBlockStore, addrs []hash.Hash, withIter bool) (v ver
 	}
 	if withIter {
 		var items []string
-		ierr := st.IterateAllChunks(verifJCtx, func(c chunks.Chunk) {
-			h := c.Hash()
-			items = append(items, hex.EncodeToString(h[:16])+":"+verifJSum(c.Data()))
-		})
+		func() {
+			defer func() {
+				if r := recover(); r != nil {
+					v.iterE = fmt.Sprintf("panic:%v", r)
+				}
+			}()
+			if ierr := st.IterateAllChunks(verifJCtx, func(c chunks.Chunk) {
+				h := c.Hash()
+				items = append(items, hex.EncodeToString(h[:16])+":"+verifJSum(c.Data()))
+			}); ierr != nil {
+				v.iterE = verifJErrStr(ierr)
+			}
+		}()
 		sort.Strings(items)
 		v.iter = items
-		if ierr != nil {
-			v.iterE = verifJErrStr(ierr)
-		}
 	}
 	return v, nil
 }
